@@ -184,6 +184,10 @@ class Bfs(object):
                         new = step(doc, mods)
                         ntrans += 1
                         f2 = frozenset(facts | facts_of(n, c))
+                        if f2 == facts and new != doc and any(p[0] == n and list(p[1]) == list(c) for p in path):
+                            # the very same results (module, OIDs in the same order) were indexed before, other modules since
+                            report([('C18|bfs|I5-reindexing-earlier-results-changes-the-index', 'before %s\nafter  %s' % (doc, new))],
+                                   path + mods)
                         key = (new, f2)
                         if key in seen:
                             continue
